@@ -537,6 +537,10 @@ func CheckMain(args []string) int {
 		return 2
 	}
 	fmt.Printf("runs=%d evals=%d ops=%d storeCalls=%d distinct_nontrivial=%d modelStates=%d wall=%.1fs violations=%d collateral=%v\n", total.Runs, total.Evals, total.Ops, total.StoreCalls, len(hashes), len(states), wall, nViol, total.Collateral)
+	if exit == 0 && len(total.Trouble) > 0 {
+		fmt.Fprintf(os.Stderr, "%d runs could not be executed (harness trouble): the check is not conclusive\n", len(total.Trouble))
+		return 2
+	}
 	if exit == 0 && len(missing) > 0 && len(knownHit) == 0 {
 		fmt.Fprintf(os.Stderr, "required probes never hit: %v (the workload does not reach what the check claims; harness trouble)\n", missing)
 		return 2
